@@ -57,7 +57,9 @@ def datafit_specs(dname, X, tier):
     if dname is None:
         return [None]
     if dname == "WeightedQuadratic":
-        return [dict(name=dname, sample_weights=[1.0, 2.0, 1.0, 3.0, 2.0, 1.0, 4.0, 1.0][:n])]
+        # weights summing to more than n, and to (much) less than n: normalisation by n_samples vs by sum(sample_weights)
+        return [dict(name=dname, sample_weights=[1.0, 2.0, 1.0, 3.0, 2.0, 1.0, 4.0, 1.0][:n]),
+                dict(name=dname, sample_weights=[0.5, 0.25, 0.5, 0.125, 0.25, 0.5, 0.125, 0.25][:n])]
     if dname == "Huber":
         return [dict(name=dname, delta=1.0)]
     if dname == "Cox":
